@@ -4,5 +4,5 @@ PATCH=$1; P=$2; T=${3:-quick}
 WT=/var/tmp/devrun_$$
 git -C /repo worktree add --detach $WT HEAD -q || exit 2
 ( cd $WT && git apply "$PATCH" ) || { echo "PATCH-DOES-NOT-APPLY"; git -C /repo worktree remove --force $WT; exit 2; }
-( cd /verif && HGMC_REPO=$WT HGMC_OUT=/var/tmp/devout_$$ ./check $P --tier $T 2>&1 | cut -c1-400 | head -${LINES_MAX:-40} )
+( cd ${VDIR:-/verif} && HGMC_REPO=$WT HGMC_OUT=/var/tmp/devout_$$ ./check $P --tier $T 2>&1 | cut -c1-400 | head -${LINES_MAX:-40} )
 git -C /repo worktree remove --force $WT; rm -rf /var/tmp/devout_$$
